@@ -177,6 +177,13 @@ class Sink:
         return a
 
 
+def mk_ite(ty, c, a, b):
+    """conditional value; `!c ? a : b` is written `c ? b : a` (negated tests with swapped branches give the same term)"""
+    while isinstance(c, tuple) and c and c[0] == "not":
+        c, a, b = c[1], b, a
+    return ("ite", ty, c, a, b)
+
+
 class SymExec:
     """symbolic execution of main()'s top-level statements"""
 
@@ -188,6 +195,7 @@ class SymExec:
         self.cut_rule = cut_rule
         self.cuts = {}          # cut variable name -> (leaf, full IR)
         self.notes = []
+        self.lambdas = {}       # id -> (LambdaExpr node, environment at its definition)
 
     # ------------------------------------------------------------------ expressions
     def ex(self, n):
@@ -256,7 +264,7 @@ class SymExec:
             ty = ctype(n)
             if ty.startswith("other"):
                 raise Unknown("conditional of type %s" % ty)
-            return ("ite", ty, c, a, b)
+            return mk_ite(ty, c, a, b)
         if k == "CXXMemberCallExpr":
             me = kids(n)[0]
             if me.get("kind") != "MemberExpr":
@@ -284,6 +292,13 @@ class SymExec:
         if k == "CXXOperatorCallExpr":
             ks = kids(n)
             op = callee_name(n)
+            if op == "operator()" and len(ks) >= 2:
+                try:
+                    f = self.ex(ks[1])
+                except Unknown:
+                    f = None
+                if f and f[0] == "lambda":
+                    return self.call_lambda(f[1], [self.ex(a) for a in ks[2:] if a.get("kind") != "CXXDefaultArgExpr"])
             if op == "operator[]" and len(ks) == 3:
                 v, i = self.ex(ks[1]), self.ex(ks[2])
                 while i[0] == "cast":
@@ -329,6 +344,80 @@ class SymExec:
                 return ("vec", list(tys)[0], elems)
             raise Unknown("initializer list")
         raise Unknown("expression kind %s" % k)
+
+    # ------------------------------------------------------------------ local lambdas
+    def call_lambda(self, lid, args):
+        """value of a call of a local lambda: parameters bound to the arguments (converted to the parameter types), the
+        body executed as straight-line code with `if (c) return a; ... return b;` becoming a conditional value.  Everything
+        the body reads from the enclosing function must have the value it had when the lambda was defined (so that capture by
+        copy and by reference cannot differ)."""
+        node, env_def = self.lambdas[lid]
+        meth = None
+        for m in walk(node):
+            if m.get("kind") == "CXXMethodDecl" and m.get("name") == "operator()":
+                meth = m
+                break
+        if meth is None:
+            raise Unknown("lambda without a call operator")
+        params = [c for c in kids(meth) if c.get("kind") == "ParmVarDecl"]
+        body = [c for c in kids(meth) if c.get("kind") == "CompoundStmt"]
+        if len(params) != len(args) or len(body) != 1:
+            raise Unknown("lambda call with %d arguments for %d parameters" % (len(args), len(params)))
+        saved = self.env
+        local = dict(saved)
+        for nm, v in env_def.items():
+            if nm in saved and saved[nm] != v and v[0] != "lambda":
+                # a variable changed since the definition: only harmful if the body reads it
+                if any(m.get("kind") == "DeclRefExpr" and (m.get("referencedDecl") or {}).get("name") == nm for m in walk(body[0])):
+                    raise Unknown("lambda reads %s, which changed after the lambda was defined" % nm)
+        for p_, a in zip(params, args):
+            ty = ctype(p_)
+            if ty.startswith("other"):
+                raise Unknown("lambda parameter of type %s" % ty)
+            local[p_.get("name")] = a if typeof(a) == ty else ("cast", ty, a)
+        self.env = local
+        try:
+            rty = ctype(node) if False else None
+            val = self.lambda_stmts(kids(body[0]))
+        finally:
+            self.env = saved
+        q = (meth.get("type") or {}).get("qualType") or ""
+        return val
+
+    def lambda_stmts(self, stmts):
+        if not stmts:
+            raise Unknown("lambda body falls off its end")
+        s, rest = stmts[0], stmts[1:]
+        k = s.get("kind")
+        if k == "NullStmt":
+            return self.lambda_stmts(rest)
+        if k == "CompoundStmt":
+            return self.lambda_stmts(kids(s) + rest)
+        if k == "ReturnStmt":
+            return self.ex(kids(s)[0])
+        if k == "DeclStmt":
+            for v in kids(s):
+                if v.get("kind") != "VarDecl" or not kids(v):
+                    raise Unknown("declaration inside a lambda")
+                val = self.ex(kids(v)[-1])
+                ty = ctype(v)
+                if ty.startswith("other"):
+                    raise Unknown("lambda local of type %s" % ty)
+                self.env[v.get("name")] = val if typeof(val) == ty else ("cast", ty, val)
+            return self.lambda_stmts(rest)
+        if k == "IfStmt":
+            ks = kids(s)
+            cond = self.ex(ks[0])
+            e0 = dict(self.env)
+            a = self.lambda_stmts([ks[1]] + rest)
+            self.env = dict(e0)
+            b = self.lambda_stmts(([ks[2]] if len(ks) > 2 else []) + rest)
+            self.env = e0
+            ta, tb = typeof(a), typeof(b)
+            if ta != tb:
+                raise Unknown("lambda returns values of different types")
+            return a if a == b else mk_ite(ta, cond, a, b)
+        raise Unknown("statement of kind %s inside a lambda" % k)
 
     def cmp(self, op, a, b):
         # fpclassify(x) == FP_ZERO / FP_NORMAL (glibc: FP_ZERO = 2, FP_NORMAL = 4), either order
@@ -409,6 +498,12 @@ class SymExec:
             return
         ks = [c for c in kids(v) if c.get("kind") not in ("FullComment",)]
         if not ks:
+            return
+        lam = [m for m in walk(ks[-1]) if m.get("kind") == "LambdaExpr"]
+        if lam:
+            # a local helper `const auto f = [..](T a, ..) -> R { if (c) return x; return y; };` is inlined at every call
+            self.env[name] = ("lambda", id(lam[0]))
+            self.lambdas[id(lam[0])] = (lam[0], dict(self.env))
             return
         try:
             val = self.ex(ks[-1])
@@ -493,7 +588,7 @@ class SymExec:
                     if ta != tb:
                         merged[nm] = ("opaque", "%s (branches of different type)" % nm, "other")
                     else:
-                        merged[nm] = ("ite", ta, cond, a, b)
+                        merged[nm] = mk_ite(ta, cond, a, b)
                         self.full[nm] = self.inline_full(merged[nm])
             self.env = merged
             return
